@@ -28,7 +28,12 @@ def run(c):
               "1-5 groups per file, 1-2 Match statements with 1-3 alternatives drawn from a "
               "catalogue of ~80 pattern templates covering every bucket tag plus statement-, expression- and declaration-list "
               "patterns; filters none / Deadcode / !Deadcode / Const) run over a type-checked kitchen-sink file, generated "
-              "nestings and repository test files; every engine report is one evaluation; a case is non-trivial and distinct "
+              "nestings and repository test files; every other random history has 1-2 Load calls that are rejected (a re-declared group "
+              "in front of / between / behind new groups, a bundle imported twice under one prefix, a file that does not parse or "
+              "type-check, a pattern gogrep rejects), anywhere in the history, sometimes followed by a file that declares the "
+              "rejected file's new groups again; after its lone run every set is run as the root of a tree of runs started from Report "
+              "callbacks (nil / own / pooled states, same or another goroutine, up to three levels, other targets) and as one of "
+              "six concurrent runs; every engine report is one evaluation; a case is non-trivial and distinct "
               "by (node tag, pattern root tag) pairs that produced an accepted match, plus (rule set, target) runs in which "
               "several rules competed for the same node")
     c.trusted += walkerlib.TRUSTED + [
@@ -42,10 +47,12 @@ def run(c):
                 "filters are an oracle here (C02/C17 are about them); the oracle evaluates Deadcode and Const independently"]
 
     c.build_theories()
-    c.require_theories("Ast/*.v", "Engine/Dispatch.v", "Engine/RunState.v", "Engine/MatchEnv.v")
+    c.require_theories("Ast/*.v", "Engine/Dispatch.v", "Engine/RunState.v", "Engine/MatchEnv.v", "Engine/LoadFail.v", "Engine/Reentrant.v")
     inst_ok = False
-    if walkerlib.go2coq(c, "walktables", "Gen_WalkTables.v"):
-        inst_ok = walkerlib.prepare(c, [], extra_gen=["Gen_WalkTables.v"], extra_tmpl=["C01/Inst_Dispatch.v", "C01/C01.v"])
+    g1 = walkerlib.go2coq(c, "walktables", "Gen_WalkTables.v")
+    g2 = walkerlib.go2coq(c, "runnerstate", "Gen_RunnerState.v")
+    if g1 and g2:
+        inst_ok = walkerlib.prepare(c, [], extra_gen=["Gen_WalkTables.v", "Gen_RunnerState.v"], extra_tmpl=["C01/Inst_Dispatch.v", "C01/C01.v"])
 
     hb = c.build_harness("walker")
     if hb is None:
@@ -96,7 +103,13 @@ def run(c):
                     c.obligation("harness:pattern-catalogue", False, "only %d pattern templates load: %s" % (o["nodes"], o.get("skipped")))
                 continue
             if o.get("err"):
-                if o["err"].startswith("target:"):
+                if o["err"].startswith("target: Load #"):
+                    # a file that re-declares a loaded group (or does not parse / type-check / has a rejected pattern) loaded
+                    c.fail("oracle", "a Load call that must be rejected was accepted: " + o["err"][len("target: "):],
+                           input={"rules_files": o.get("files"), "load_order": o.get("order"), "loaded_via": o.get("via"),
+                                  "load_calls": [(ld["name"], ld.get("fail") or "accepted") for ld in (o.get("load_calls") or [])]},
+                           expected="Load returns an error and the engine keeps the rules it had", observed=o["err"])
+                elif o["err"].startswith("target:"):
                     c.obligation("harness-run:rules-target", False, o["err"])
                 else:
                     # every catalogue pattern loads on its own, so a rule set built from them must load
@@ -112,6 +125,23 @@ def run(c):
             if o.get("loads") and o.get("engine"):
                 c.nontriv("load-history:" + "|".join(o["loads"]) + ":bundles=%d" % sum(o.get("parts") or []))
                 c.nontriv("load-via:" + "|".join(o.get("via") or []))
+            rejected = [ld for ld in (o.get("load_calls") or []) if ld.get("fail")]
+            if rejected:
+                c.coverage["histories_with_rejected_loads"] = c.coverage.get("histories_with_rejected_loads", 0) + 1
+                if o.get("ghost_hits"):
+                    c.coverage["histories_whose_rejected_rules_match_the_target"] = c.coverage.get("histories_whose_rejected_rules_match_the_target", 0) + 1
+                    calls = o.get("load_calls") or []
+                    for li, ld in enumerate(calls):
+                        if ld.get("fail"):
+                            c.nontriv("rejected-load:%s:%s:via-%s" % (ld["fail"], "first" if li == 0 else ("last" if li == len(calls) - 1 else "between"),
+                                                                      (o.get("via") or ["?"] * len(calls))[li]))
+            if o.get("nested_runs"):
+                c.coverage["runs_started_from_report_callbacks"] = c.coverage.get("runs_started_from_report_callbacks", 0) + o["nested_runs"]
+                re_ = o.get("reentrant") or ""
+                c.nontriv("reentrant:depth=%d:goroutine=%s:same-file=%s" % (max(len(l) - len(l.lstrip()) for l in re_.splitlines()) // 4,
+                                                                            "goroutine" in re_, re_.count(o["target"]) > 1))
+            if o.get("parallel_runs"):
+                c.coverage["runs_in_progress_at_the_same_time"] = c.coverage.get("runs_in_progress_at_the_same_time", 0) + o["parallel_runs"]
             if o.get("last_lean"):
                 c.coverage["histories_whose_last_load_adds_no_syntax_rule"] = c.coverage.get("histories_whose_last_load_adds_no_syntax_rule", 0) + 1
             if sum(o.get("parts") or []):
@@ -120,7 +150,9 @@ def run(c):
                 c.fail("oracle", "Engine.Run reports differ from ast.Inspect x MatchNode, first accepting rule wins: " + o["mismatch"],
                        input={"rules_files": o.get("files"), "load_order": o.get("order"), "target": o.get("src"), "seed": seed, "set": o["set"],
                               "group_filter": "groups named *_off are disabled", "bundles": "harness/fake/wb1..wb4 (imported with the prefix shown in the file)",
-                              "load_history": o.get("loads"), "loaded_via": o.get("via")},
+                              "load_history": o.get("loads"), "loaded_via": o.get("via"),
+                              "load_calls": [(ld["name"], "rejected (%s): %s" % (ld["fail"], ld.get("err")) if ld.get("fail") else "accepted") for ld in (o.get("load_calls") or [])],
+                              "runs_started_from_report_callbacks": o.get("reentrant"), "other_targets": o.get("others")},
                        expected=[(r["r"], r["p"], r["e"]) for r in (o.get("oracle") or [])][:40],
                        observed=[(r["r"], r["p"], r["e"]) for r in (o.get("engine") or [])][:40])
             elif len(c.samples) < 4 and o.get("engine"):
@@ -128,6 +160,9 @@ def run(c):
                           "reports": len(o["engine"]), "contested_nodes": o.get("contested")})
         if rc != 0 or not sets:
             c.obligation("harness-run:rules", False, out[-2000:])
+        if not c.coverage.get("histories_whose_rejected_rules_match_the_target") or not c.coverage.get("runs_started_from_report_callbacks"):
+            c.obligation("harness-run:rules-rejected-loads-and-reentrancy", False, "no history with a rejected Load whose rules match the target / no run "
+                         "started from a Report callback: %s" % {k: v for k, v in c.coverage.items() if "rejected" in k or "callbacks" in k})
         c.coverage["rule_sets_run"] = c.coverage.get("rule_sets_run", 0) + len(sets)
         # K: the Coq model of load + dispatch on the oracle's matcher table vs. the engine's reports
         if not inst_ok:
@@ -145,32 +180,51 @@ def run(c):
             src = [walkerlib.PRE, "From RG.Engine Require Import Dispatch.\nFrom RGW Require Import Inst_Dispatch."]
             trees = {}
             names = []
+            entries = []
             for gi, o in enumerate(sh):
                 if o["target"] not in trees:
                     trees[o["target"]] = "T%d" % len(trees)
                     t = re.sub(r"K<(\w+)>", lambda m: str(kidx.get(m.group(1), 9999)), o["tree"])
                     t = re.sub(r"F<(\w+|\?)>", lambda m: str(fidx.get(m.group(1), 9999)), t)
                     src.append("Definition %s : node := %s." % (trees[o["target"]], t))
-                # the load history: per Load call the file's own (syntax rules, comment rules), then each imported bundle file's
+                # the load history: per Load call -- loader ok?, the groups it declares, the file's own (syntax rules, comment
+                # rules), then each imported bundle file's; the rules of a rejected file are there too (what the model does
+                # with them is decided by the merge mode read from source)
                 fl = []
+                calls = o.get("load_calls") or [{"groups": []} for _ in (o.get("parts") or [0])]
+                gid = {}
+                for ld in calls:
+                    for g in ld.get("groups") or []:
+                        gid.setdefault(g, len(gid))
                 for li, nparts in enumerate(o.get("parts") or [0]):
+                    ld = calls[li] if li < len(calls) else {"groups": []}
+                    pool_ = (o.get("ghosts") or []) if ld.get("fail") else (o.get("rules") or [])
                     def part(pi):
-                        rs_ = [r for r in (o.get("rules") or []) if r.get("load", 0) == li and r.get("part", 0) == pi]
+                        rs_ = [r for r in pool_ if r.get("load", 0) == li and r.get("part", 0) == pi]
                         return ("[%s]" % "; ".join("R %d %d" % (r["idx"], r["tag"]) for r in rs_ if not r.get("comment")),
                                 "[%s]" % "; ".join(str(r["idx"]) for r in rs_ if r.get("comment")))
                     own = part(0)
-                    fl.append("(%s, %s, [%s])" % (own[0], own[1], "; ".join("(%s, %s)" % part(pi) for pi in range(1, nparts + 1))))
+                    loader_ok = ld.get("fail") not in ("parse", "badpattern", "undefined")
+                    fl.append("(%s, [%s], (%s, %s, [%s]))" % ("true" if loader_ok else "false", "; ".join(str(gid[g]) for g in ld.get("groups") or []),
+                                                             own[0], own[1], "; ".join("(%s, %s)" % part(pi) for pi in range(1, nparts + 1))))
                 rs = "; ".join(fl)
+                acc = "; ".join("false" if ld.get("fail") else "true" for ld in calls[:len(o.get("parts") or [0])])
                 iscomment = {r["idx"]: bool(r.get("comment")) for r in (o.get("rules") or [])}
                 mt = "; ".join("(%d, %d, [%s])" % (e["n"], e["r"], "; ".join("(%d, %d, %s)" % (cb[0], cb[1], "true" if cb[2] else "false") for cb in e["c"]))
                                for e in (o.get("m") or []))
                 eng = "; ".join("(%d, %d, %d)" % (r["r"], r["p"], r["e"]) for r in (o.get("engine") or []) if not iscomment.get(r["r"]))
-                src.append("Definition X%d := check_run %s [%s] [%s] [%s]." % (gi, trees[o["target"]], rs, mt, eng))
+                src.append("Definition X%d := check_run %s [%s] [%s] [%s] [%s]." % (gi, trees[o["target"]], rs, acc, mt, eng))
                 names.append("X%d" % gi)
+                entries.append((o, "run"))
+                if o.get("schedule"):
+                    src.append("Definition P%d := check_plan [%s] [%s]." % (gi, "; ".join("(%d, %d, %d)" % tuple(st) for st in o["schedule"]),
+                                                                             "; ".join("(%d, %d)" % tuple(rc_) for rc_ in o.get("run_counts") or [])))
+                    names.append("P%d" % gi)
+                    entries.append((o, "plan"))
             src.append("Definition RES := Eval vm_compute in [%s]." % "; ".join(names))
             src.append("Print RES.")
             jobs.append(("Runs_%s_%d.v" % (tag, si), "\n".join(src)))
-            meta.append(sh)
+            meta.append(entries)     # one result per X (run) and per P (log of a tree of overlapping runs)
         nk = 0
         for (fname, _), sh, (ok, out) in zip(jobs, meta, c.coq_eval_many(jobs, timeout=900)):
             if not ok:
@@ -181,11 +235,21 @@ def run(c):
             if len(pairs) != len(sh):
                 c.obligation("coq-eval-parse:" + fname, False, out[-2000:])
                 continue
-            for o, (code, idx) in zip(sh, pairs):
+            for (o, what), (code, idx) in zip(sh, pairs):
                 nk += 1
+                if what == "plan":
+                    c.coverage["model_vs_impl_overlapping_run_trees"] = c.coverage.get("model_vs_impl_overlapping_run_trees", 0) + 1
+                    if int(code) == 1:
+                        c.obligation("harness:reentrant-schedule-exclusive:%s:%d" % (tag, o["set"]), False,
+                                     "the harness used a RunnerState for two overlapping runs: " + (o.get("reentrant") or ""))
+                    elif int(code) != 0:
+                        c.fail("corr", "model of overlapping runs (every run delivers its own reports) and the engine differ in the number of reports per run",
+                               input={"set": o["set"], "target": o["target"], "runs": o.get("reentrant")}, observed=o.get("run_counts"))
+                    continue
                 if int(code) != 0:
                     c.fail("corr", "model of load history + dispatch (on the oracle's matcher table) and Engine.Run differ" +
-                           (" at syntax report #%s" % idx if int(code) == 2 else ": the model has no result"),
+                           (" at syntax report #%s" % idx if int(code) == 2 else
+                            (": the engine accepted / rejected another set of Load calls than the model, first at call #%s" % idx if int(code) == 3 else ": the model has no result")),
                            input={"set": o["set"], "target": o["target"], "rules": [(r["group"], r["line"], r["src"], r["filter"]) for r in (o.get("rules") or [])]},
                            observed=(o["engine"][int(idx)] if int(idx) < len(o.get("engine") or []) else None))
         c.coverage["model_vs_impl_runs"] = c.coverage.get("model_vs_impl_runs", 0) + nk
